@@ -48,8 +48,15 @@ class Relay:
         else:
             Config.subscription_limit = 32
         Config.service_privatekey = "07" * 32      # LMDB keeps role assignments as signed service events
-        cls = SQLStore if backend == "sql" else KVStore
-        self.store = cls(validators=list(validators), authentication=authentication, output_validator=output_validator)
+        self._dir = None
+        if backend == "sql":
+            # a file-backed database, as the relay is deployed: with sqlite :memory: SQLAlchemy hands every task the *same*
+            # DBAPI connection (StaticPool), so that one task's release / rollback hits another task's open transaction
+            self._dir = common.scratch_dir("nrsql-")
+            self.store = SQLStore(validators=list(validators), authentication=authentication, output_validator=output_validator,
+                                  url="sqlite+aiosqlite:///" + self._dir + "/relay.sqlite3")
+        else:
+            self.store = KVStore(validators=list(validators), authentication=authentication, output_validator=output_validator)
         self.backend = backend
         self.loop = self.store.loop
         self.storage = self.store.storage
@@ -121,6 +128,10 @@ class Relay:
         asyncio.sleep = _real_sleep
         asyncio.Queue = _real_queue
         self.store.close()
+        if self._dir:
+            import shutil
+
+            shutil.rmtree(self._dir, ignore_errors=True)
 
 
 class Conn:
